@@ -43,13 +43,13 @@ WORLD = 16                            # the grid bbox is [0, 0, 16, 16] lattice 
 RES = [2048, 1024, 512, 256, 128, 64, 32, 16, 8, 4, 2, 1, 0.5]     # levels 0..12, 256 px tiles
 META = 2
 GRID_N = {z: max(1, int(round(WORLD * UNIT / (256 * RES[z])))) for z in range(len(RES))}
-SPAN = {z: int(256 * RES[z] / UNIT) for z in range(8, len(RES))}
+SPAN = {z: int(256 * RES[z] / UNIT) for z in range(len(RES))}
 JUNK = ['j_root', 'j_out']
 
 SMALL = dict(
     name='small',
-    levels=[9, 10, 11],
-    addr=[(0, 0, 9), (0, 0, 10), (1, 1, 10), (0, 0, 11), (1, 0, 11), (3, 3, 11)],
+    levels=[1, 10, 11],               # a one-digit level whose number is a prefix of the two-digit ones
+    addr=[(0, 0, 1), (0, 0, 10), (1, 1, 10), (0, 0, 11), (1, 0, 11), (3, 3, 11)],
     covs={'cA': [(1, 1, 5, 5)],                       # inside one meta tile of level 11, edges inside tiles
           'cB': [(8, 8, 16, 16)],                     # edges on meta tile borders: neighbours only touch
           'cL': [(0, 0, 4, 16), (0, 12, 16, 16)]},    # L-shaped union (geometry coverage)
@@ -62,8 +62,8 @@ def _all_tiles(levels):
 
 BIG = dict(
     name='big',
-    levels=[8, 9, 10, 11, 12],
-    addr=_all_tiles([8, 9, 10, 11]) + [(x, y, 12) for x, y in ((0, 0), (1, 1), (2, 5), (3, 4), (7, 7), (6, 1), (4, 4), (5, 2))],
+    levels=[1, 8, 9, 10, 11, 12],
+    addr=_all_tiles([1, 8, 9, 10, 11]) + [(x, y, 12) for x, y in ((0, 0), (1, 1), (2, 5), (3, 4), (7, 7), (6, 1), (4, 4), (5, 2))],
     covs=None,                                        # drawn per run
 )
 
@@ -175,7 +175,7 @@ class Backend(object):
 
     def junk_path(self, d, j):
         if j == 'j_out':
-            return os.path.join(d, 'c.old', '09', 'keep.png')
+            return os.path.join(d, 'c.old', '01', 'keep.png')
         if self.name in ('mbtiles', 'mbtiles-ts', 'geopackage'):
             return os.path.join(d, 'zz_notes.txt')        # next to the database file
         return os.path.join(d, 'c', 'zz_notes.txt')        # in the root of the cache directory
@@ -340,7 +340,7 @@ def measure(ctx, bk, universe):
                             uj.append(j)
             rec['under'].append([z, ut, uj])
         # does the backend give back the time of the store?
-        probe = (0, 0, 9)
+        probe = (0, 0, 1)
         bk.store(cache, probe, T0 - 1000, B.payload('b1'))
         B.cleanup(cache)
         ts = site.classes([probe]).get(probe)
@@ -999,7 +999,7 @@ def _run(ctx, thorough, bks, byname, feats, feats_big, classes, sites):
     mtc = 3 if thorough else 2
     full_tasks = task_space(SMALL, covs, with_partial=False)
     part_tasks = [t for t in task_space(SMALL, covs, with_full=False)
-                  if t['mode'] != 'default' and (thorough or len(t['levels']) != 2 or 9 not in t['levels'])]
+                  if t['mode'] != 'default' and (thorough or len(t['levels']) != 2 or 1 not in t['levels'])]
     for i, (key, members) in enumerate(classes.items()):
         rec = dict(feats[members[0].name], name='K%d' % i)
         jobs.append(('full-K%d' % i, rec, SMALL, covs, full_tasks, mt, True))
